@@ -114,7 +114,7 @@ package elasticsearch
 //@   option allow-exit yes
 //@   ghost s0 int
 //@   bind sendSplit sentTo := s0
-//@   assume at "statusCode, err = p.sendSplit(0, eventsCount, data.begin, data.outBuf)" s0 == data.begin[0]
+//@   assume at "p.sendSplit(" s0 == data.begin[0]
 //@   requires p.config.BatchSize_ >= 0 && p.config.BatchSize_ * p.avgEventSize >= 0
 //@   requires workerData != nil && (isnil(*workerData) || typeis(*workerData, "*github.com/ozontech/file.d/plugin/output/elasticsearch.data"))
 //@   callee ForEach(cb)
